@@ -91,6 +91,9 @@ def _norm(s):
 
 def assemble(template_path, unit, default_props):
     tpl = open(template_path).read().split('\n')
+    for l in tpl:
+        if l.strip().startswith('//@property '):
+            default_props = l.strip().split()[1:]
     asm = Assembled()
     out = []   # list of lines
 
